@@ -19,7 +19,7 @@ TB = ["verus 0.2026.09.13 (Z3 back end)", "vx/extract.py rewrite rules R1-R14 (v
 U1 = "u1_state"
 U5 = "u5_lib"
 A_U5 = "U5 restates the failure detector as an opaque type with ghost views (live set, dead set, number of heartbeat reports per member); the three stubs used (report_heartbeat, get_or_create_sampling_window) state what U4 proves / assumes on the real detector"
-A_LRU = "A-lru: lru::LruCache::{peek, pop, push} behave as a map (view); ClusterState::node_state_mut_or_init (BTreeMap Entry API + LruCache::pop) has an assumed contract exercised by the bounded drivers c12_timeline / c18_catchup"
+A_LRU = "A-lru: lru::LruCache::{peek, pop, push} behave as a map (view) and `LruCache::new(..)` is empty; ClusterState::node_state_mut_or_init is VERIFIED with the Entry idiom read as contains_key / get_mut / insert-and-get (R15, second site: `Entry::Occupied(v) => v.into_mut()`, `Entry::Vacant(v) => v.insert(x)`), the bounded drivers c12_timeline / c18_catchup still exercise the real function"
 A_ELIDE = "R11: in the C16 view of process_message the three accepting paths are replaced by an arbitrary effect (havoc); no claim is made about them there"
 U2 = "u2_wire"
 
@@ -189,7 +189,7 @@ PROPS = {
 U4 = "u4_fd"
 A_FLOAT = "A-float: NONE - floating point values are uninterpreted in U4 (f64 arithmetic routed through value-less adapters); no claim treats machine floats as reals"
 A_CLOCK2 = "A-clock: Instant/Duration are natural numbers of nanoseconds; Instant + Duration adds, comparisons compare (time_axioms in u4_fd.vrs)"
-A_FD_ENTRY = "A-fd-entry: contract of FailureDetector::get_or_create_sampling_window (HashMap Entry API + closure) is assumed in U4 and checked by the bounded driver fd_model; HashMap::get_mut and `&HashMap` iteration are specified by hand after vstd's BTreeMap specs"
+A_FD_ENTRY = "A-fd-entry (R15, third site): FailureDetector::get_or_create_sampling_window is VERIFIED with `map.entry(k).or_insert_with(closure)` routed through an adapter taking the REAL closure (contract: the stored value for k, after storing closure() if there was none - std's documented behaviour); the configuration premise sampling_window_size >= 1 is part of fd_wf; HashMap::get_mut and `&HashMap` iteration are specified by hand after vstd's BTreeMap specs; the bounded driver fd_model still exercises the real function"
 N_FD = {"test": "verif_fd_model", "pairs": ["FailureDetector::update_node_liveness", "FailureDetector::garbage_collect", "FailureDetector::report_heartbeat", "SamplingWindow::report_heartbeat", "SamplingWindow::phi"]}
 N_C11S = {"test": "verif_c11_steady", "pairs": []}
 N_C12 = {"test": "verif_c12_timeline", "pairs": []}
@@ -424,6 +424,22 @@ PROPS["C07"]["verus"].append({"unit": U2, "fns": ["Digest::serialize", "Digest::
 PROPS["C07"]["verus"].append({"unit": U5, "fns": ["ChitchatMessage::serialize", "ChitchatMessage::serialized_len", "lemma_msg_len"]})
 PROPS["C07"]["assumptions"] += [A_BTREE_ORDER, A_DELTA_BYTES]
 PROPS["C07"]["level_text"] += " The digest length the budget subtracts is now the proved length of what Digest::serialize writes (no longer an uninterpreted number), and a reply is exactly 4 + digest + delta.serialized_len bytes long (ChitchatMessage::serialize / serialized_len against the documented layout), so the constant MESSAGE_HEADER_LEN is tied to the real header."
+for _p in ("C10", "C11", "C12"):
+    PROPS[_p]["verus"].append({"unit": U4, "fns": ["FailureDetector::get_or_create_sampling_window"]})
+for _p in ("C05", "C11", "C12", "C18"):
+    PROPS[_p]["verus"].append({"unit": U5, "fns": ["ClusterState::node_state_mut_or_init"]})
+A_ITER_DIGEST = "A-iter (digest): `node_states.iter().filter(F).map(G).collect()` in ClusterState::compute_digest is a contracted stub (G's results for the entries F keeps); F and G themselves are proved as slices of the closure bodies; the scheduled-for-deletion set is opaque (membership only; its filter predicate scheduled_pred is proved in U4, the chain that builds it is not); checked on the real functions by the bounded drivers c12_timeline / c07_window"
+for _p in ("C12", "C07"):
+    PROPS[_p]["verus"].append({"unit": U2, "fns": ["ClusterState::compute_digest", "digest_filter_pred", "digest_map_fn"]})
+    PROPS[_p]["assumptions"].append(A_ITER_DIGEST)
+PROPS["C12"]["verus"].append({"unit": U5, "fns": ["Chitchat::create_syn_message", "Chitchat::compute_digest__real"]})
+PROPS["C12"]["level_text"] += " What a digest mentions is proved on ClusterState::compute_digest (filter and map closure bodies as slices, the adapter chain as a contracted stub) and carried to Chitchat::create_syn_message: a SYN's digest mentions exactly the known members that are not scheduled for deletion, each with the digest of its state."
+PROPS["C16"]["verus"].append({"unit": U5, "fns": ["Chitchat::create_syn_message", "Chitchat::with_chitchat_id_and_seeds"]})
+PROPS["C16"]["level_text"] += " Chitchat::create_syn_message is proved to put the node's own configured cluster id into every SYN."
+for _p in ("C13", "C05"):
+    PROPS[_p]["verus"].append({"unit": U5, "fns": ["Chitchat::with_chitchat_id_and_seeds", "ClusterState::with_seed_addrs", "Chitchat::self_node_state"]})
+PROPS["C13"]["level_text"] += " The base case is proved too: Chitchat::with_chitchat_id_and_seeds returns a node satisfying the representation invariant (watch value and previous_live_nodes both empty), with live and dead sets empty and only the local node known."
+PROPS["C13"]["assumptions"] = [a.replace("is assumed of the pre-state: the constructor establishes it (both empty) and only update_nodes_liveness writes the two private fields", "is established by the constructor (proved) and re-established by every evaluation (proved, @aux); that nothing else writes the two private fields is read off the source") for a in PROPS["C13"]["assumptions"]]
 U2_CODEC = ["ChitchatId::serialize", "ChitchatId::serialized_len", "Heartbeat::serialize", "Heartbeat::serialized_len", "NodeDigest::serialize",
             "NodeDigest::serialized_len", "alloc::string::String::serialize", "alloc::string::String::serialized_len",
             "DeletionStatusMutation::serialize", "DeletionStatusMutation::serialized_len", "KeyValueMutationRef::serialize",
